@@ -50,10 +50,12 @@ ASSUMPTIONS = [
     "pixel centre (pix2ang) returns that pixel; nside2pixarea(2^d) = 4*pi/(12*4^d)",
     "pickle round-trips values and object identity inside one dump (so `demoted` stays an alias of pixeldict[maxdepth])",
     "levels passed to add_pixels/add_circles/add_poly are in 1..maxdepth (other levels are stored but ignored by the code)",
-    "the hand model Model.C08 is tied to regions.py by this sampled correspondence (bounded-exhaustive at depth 2-3, "
-    "random to length 12 at depth <= 10); nothing in C08 is regenerated from source",
+    "the glue Model.C08.stepL (set semantics, cache aliasing, order of statements) is tied to regions.py by this sampled "
+    "correspondence (bounded-exhaustive at depth 2-3, random to length 12 at depth <= 10); its 13 arithmetic leaves and "
+    "loop ranges are regenerated from source on every run (Gen.C08.*) and the driver executes stepGen",
 ]
-TRUSTED = ["Lean driver parsing/printing (Aegean/Driver/C08.lean) and this harness's canonicaliser of Region state"]
+TRUSTED = ["translator/targets/C08.py: 13 slicers (children, parent, quadHead, degrade, five loop ranges, finer, three depth guards)",
+           "Lean driver parsing/printing (Aegean/Driver/C08.lean) and this harness's canonicaliser of Region state"]
 PARTIAL = []
 
 # ------------------------------------------------------------------------------------------------
